@@ -1,5 +1,6 @@
 (** Property C06 -- scrolling stays in its region and feeds the scrollback in order.
     Only pinned statements, closed by [exact], with their assumptions printed. *)
+From Avt Require Import Gen.TermFns Proofs.TermEasy Proofs.TermTie.
 From Avt Require Import Oracles.Step Proofs.Inv Proofs.VisEq Proofs.BufScroll Proofs.SpecScroll Proofs.StepC06C08 Proofs.StepC06M.
 
 (** LF/IND/NEL on the bottom margin, RI on the top margin, SU, SD, IL, DL: from every state satisfying the invariant the control function succeeds and yields exactly the specified screen, scrollback, cursor and modes (all fields except dirty flags / lazy-trim flag). *)
@@ -42,3 +43,11 @@ Theorem C06_resize : forall p p' t c r t', term_resize t c r = Ok t' -> holds_C0
 Proof. exact C06_resize_holds. Qed.
 Check C06_resize : forall p p' t c r t', term_resize t c r = Ok t' -> holds_C06_resize (mkVt p t) (mkVt p' t') = true.
 Print Assumptions C06_resize.
+
+(** TIE BY PROOF for the scrolling commands' scalar logic (which range, which count, which rows are marked): the
+    regenerated Rust functions LF NEL RI SU SD IL DL (and HTS), replayed with the model's buffer primitives, equal the
+    model's control functions; no usize underflow. *)
+Theorem C06_source_tie : forall t f, TScal t -> ev_fn f = true -> exists z, g_execute (zabs t) f = Some (z, true) /\ execute t f = zrun z t.
+Proof. exact tie_execute_ev. Qed.
+Check C06_source_tie : forall t f, TScal t -> ev_fn f = true -> exists z, g_execute (zabs t) f = Some (z, true) /\ execute t f = zrun z t.
+Print Assumptions C06_source_tie.
